@@ -232,7 +232,7 @@ Proof.
         rewrite (tips_node n l cs' Hne) in Hside.
         assert (Hs : sep (Node nx lx (k0 :: kx)) a b = false).
         { unfold sep. rewrite Ht, !memb_filter, Hside by assumption. apply xorb_nilpotent. }
-        rewrite Hs. lia.
+        rewrite Hs. unfold contribs, zsum. cbn [map fold_right]. lia.
       * cbn [forallb] in Hgk. rewrite andb_true_r in Hgk. unfold good in Hgk.
         apply andb_true_iff in Hgk. destruct Hgk as [_ Hgk].
         rewrite pos_lens_node in *. exact Hgk.
@@ -290,4 +290,614 @@ Proof.
   pose proof (Hall a Ha) as Hat. pose proof (Hall b Hb) as Hbt.
   apply memb_In in Ha, Hb.
   eapply sub_tree_core_gen; try eassumption. right. congruence.
+Qed.
+
+(* ------------------------------------------------------------------ prune *)
+
+Lemma filter_partition_perm {A} (p : A -> bool) (l : list A) :
+  Permutation (filter (fun x => negb (p x)) l ++ filter p l) l.
+Proof.
+  induction l as [|x l IH]; [constructor|].
+  cbn [filter]. destruct (p x); cbn [negb].
+  - symmetry. apply Permutation_cons_app. symmetry. exact IH.
+  - cbn [app]. constructor. exact IH.
+Qed.
+
+(** the re-ordered list of replacements of the children *)
+Definition pkids (cs : list tree) : list tree :=
+  let rs := map (fun c => pc c (tlen c)) cs in
+  map fst (filter (fun r => negb (snd r)) rs) ++ map fst (filter snd rs).
+
+Definition prep (c : tree) : tree := fst (pc c (tlen c)).
+
+Lemma pc_single n l c eff :
+  pc (Node n l [c]) eff = (fst (pc c (prune_len (tlen c) eff)), true).
+Proof. reflexivity. Qed.
+
+Lemma pc_multi n l cs eff :
+  length cs <> 1%nat -> pc (Node n l cs) eff = (Node n eff (pkids cs), false).
+Proof. destruct cs as [|c [|d cs]]; cbn [length]; intros H; try reflexivity. congruence. Qed.
+
+Lemma prune_unfold t : prune t = Node (tname t) (tlen t) (pkids (kids t)).
+Proof. reflexivity. Qed.
+
+Lemma pkids_perm cs : Permutation (pkids cs) (map prep cs).
+Proof.
+  unfold pkids, prep. rewrite <- map_app.
+  rewrite <- (map_map (fun c => pc c (tlen c)) fst).
+  apply Permutation_map. apply filter_partition_perm.
+Qed.
+
+Definition hl (c : tree) : bool :=
+  match tlen c with Some _ => true | None => false end && has_lens c.
+
+Lemma has_lens_node n l cs : has_lens (Node n l cs) = forallb hl cs.
+Proof. reflexivity. Qed.
+
+Definition pc_inv (dflt : Z) (t : tree) : Prop :=
+  has_lens t = true -> forall e,
+  Permutation (tips (fst (pc t (Some e)))) (tips t) /\
+  (exists e', tlen (fst (pc t (Some e))) = Some e') /\
+  forall a b, contrib dflt a b (fst (pc t (Some e))) =
+              (if sep t a b then e else 0) + pathlen dflt t a b.
+
+Lemma prep_inv dflt cs :
+  Forall (pc_inv dflt) cs -> forallb hl cs = true ->
+  Permutation (tips_of (map prep cs)) (tips_of cs) /\
+  forall a b, contribs dflt a b (map prep cs) = contribs dflt a b cs.
+Proof.
+  induction 1 as [|c cs Hc _ IH]; intros Hh.
+  - split; [constructor|reflexivity].
+  - cbn [forallb] in Hh. apply andb_true_iff in Hh. destruct Hh as [Hhc Hhcs].
+    destruct (IH Hhcs) as [IHt IHc]. clear IH.
+    unfold hl in Hhc. apply andb_true_iff in Hhc. destruct Hhc as [Hl Hhc].
+    destruct (tlen c) as [lc|] eqn:El; [|discriminate].
+    destruct (Hc Hhc lc) as (Ht & _ & Hcc).
+    cbn [map]. rewrite !tips_of_cons. split.
+    + apply Permutation_app; [|exact IHt]. unfold prep. rewrite El. exact Ht.
+    + intros a b. rewrite !contribs_cons, IHc. unfold prep at 1. rewrite El, Hcc.
+      unfold contrib, edge_w, clen. rewrite El. reflexivity.
+Qed.
+
+Lemma pkids_inv dflt n l l' cs :
+  Forall (pc_inv dflt) cs -> forallb hl cs = true ->
+  Permutation (tips (Node n l' (pkids cs))) (tips (Node n l cs)) /\
+  forall a b, contribs dflt a b (pkids cs) = contribs dflt a b cs.
+Proof.
+  intros HF Hh. destruct (prep_inv dflt cs HF Hh) as [Ht Hc].
+  pose proof (pkids_perm cs) as HP. split.
+  - destruct cs as [|c0 cs]; [reflexivity|].
+    assert (Hne : pkids (c0 :: cs) <> []).
+    { intros E. rewrite E in HP. apply Permutation_nil in HP. discriminate. }
+    rewrite !tips_node by (assumption || congruence).
+    rewrite (tips_of_perm _ _ HP). exact Ht.
+  - intros a b. rewrite (contribs_perm dflt a b _ _ HP). apply Hc.
+Qed.
+
+Lemma pc_inv_all dflt t : pc_inv dflt t.
+Proof.
+  induction t as [n l cs IH] using tree_ind'. intros Hh e.
+  rewrite has_lens_node in Hh.
+  destruct (Nat.eq_dec (length cs) 1) as [H1|H1].
+  - destruct cs as [|c [|d cs]]; try discriminate. clear H1.
+    rewrite pc_single. cbn [fst].
+    inversion IH as [|? ? Hc _]; subst.
+    cbn [forallb] in Hh. rewrite andb_true_r in Hh. unfold hl in Hh.
+    apply andb_true_iff in Hh. destruct Hh as [Hl Hhc].
+    destruct (tlen c) as [lc|] eqn:El; [|discriminate].
+    cbn [prune_len]. destruct (Hc Hhc (lc + e)) as (Ht & Hl' & Hcc).
+    assert (Htc : tips (Node n l [c]) = tips c) by (cbn [tips flat_map]; apply app_nil_r).
+    split; [|split].
+    + rewrite Htc. exact Ht.
+    + exact Hl'.
+    + intros a b. rewrite Hcc, pathlen_node. unfold contribs. cbn [map zsum fold_right].
+      unfold contrib, edge_w, clen, sep. rewrite El, Htc.
+      destruct (xorb (memb a (tips c)) (memb b (tips c))); lia.
+  - rewrite (pc_multi n l cs (Some e) H1). cbn [fst].
+    destruct (pkids_inv dflt n l (Some e) cs IH Hh) as [Ht Hc].
+    split; [|split].
+    + exact Ht.
+    + eexists. reflexivity.
+    + intros a b. rewrite contrib_node, Hc, pathlen_node.
+      rewrite (sep_perm _ _ a b Ht). reflexivity.
+Qed.
+
+Theorem prune_preserves : forall dflt t a b,
+  has_lens t = true ->
+  Permutation (tips (prune t)) (tips t) /\ pathlen dflt (prune t) a b = pathlen dflt t a b.
+Proof.
+  intros dflt t a b Hh. destruct t as [n l cs]. rewrite prune_unfold. cbn [tname tlen kids].
+  rewrite has_lens_node in Hh.
+  assert (HF : Forall (pc_inv dflt) cs) by (apply Forall_forall; intros c _; apply pc_inv_all).
+  destruct (pkids_inv dflt n l l cs HF Hh) as [Ht Hc].
+  split; [exact Ht|]. rewrite !pathlen_node. apply Hc.
+Qed.
+
+(** child-level invariant of [pc], as a theorem *)
+Theorem pc_preserves : forall dflt t e a b,
+  has_lens t = true ->
+  Permutation (tips (fst (pc t (Some e)))) (tips t) /\
+  (exists e', tlen (fst (pc t (Some e))) = Some e') /\
+  contrib dflt a b (fst (pc t (Some e))) = (if sep t a b then e else 0) + pathlen dflt t a b.
+Proof.
+  intros dflt t e a b Hh. destruct (pc_inv_all dflt t Hh e) as (H1 & H2 & H3). auto.
+Qed.
+
+(** no unary node below the root after pruning *)
+Definition nu (c : tree) : bool := negb (Nat.eqb (length (kids c)) 1) && no_unary c.
+
+Lemma no_unary_node n l cs : no_unary (Node n l cs) = forallb nu cs.
+Proof. reflexivity. Qed.
+
+Lemma forallb_perm {A} (p : A -> bool) l1 l2 :
+  Permutation l1 l2 -> forallb p l1 = forallb p l2.
+Proof.
+  induction 1 as [|x l1 l2 _ IH|x y l|l1 l2 l3 _ IH1 _ IH2]; cbn [forallb].
+  - reflexivity.
+  - rewrite IH. reflexivity.
+  - destruct (p x), (p y); reflexivity.
+  - congruence.
+Qed.
+
+Lemma pkids_nu cs :
+  Forall (fun c => forall eff, nu (fst (pc c eff)) = true) cs -> forallb nu (pkids cs) = true.
+Proof.
+  intros HF. rewrite (forallb_perm nu _ _ (pkids_perm cs)).
+  induction HF as [|c cs Hc _ IH]; [reflexivity|].
+  cbn [map forallb]. unfold prep at 1. rewrite Hc, IH. reflexivity.
+Qed.
+
+Lemma pc_nu t : forall eff, nu (fst (pc t eff)) = true.
+Proof.
+  induction t as [n l cs IH] using tree_ind'. intros eff.
+  destruct (Nat.eq_dec (length cs) 1) as [H1|H1].
+  - destruct cs as [|c [|d cs]]; try discriminate.
+    rewrite pc_single. cbn [fst]. inversion IH as [|? ? Hc _]; subst. apply Hc.
+  - rewrite (pc_multi n l cs eff H1). cbn [fst]. unfold nu. cbn [kids].
+    rewrite no_unary_node, (pkids_nu cs IH), andb_true_r.
+    rewrite (Permutation_length (pkids_perm cs)), map_length.
+    apply negb_true_iff. apply Nat.eqb_neq. exact H1.
+Qed.
+
+Theorem prune_no_unary : forall t, no_unary (prune t) = true.
+Proof.
+  intros t. rewrite prune_unfold, no_unary_node. apply pkids_nu.
+  apply Forall_forall. intros c _. apply pc_nu.
+Qed.
+
+(* ------------------------------------------------------------------ distances *)
+
+Lemma NoDup_app_disj {A} (l1 l2 : list A) x :
+  NoDup (l1 ++ l2) -> In x l1 -> In x l2 -> False.
+Proof.
+  induction l1 as [|y l1 IH]; cbn [app]; intros Hnd H1 H2; [contradiction|].
+  inversion Hnd as [|? ? Hni Hnd']; subst. destruct H1 as [->|H1].
+  - apply Hni. apply in_or_app. right. exact H2.
+  - exact (IH Hnd' H1 H2).
+Qed.
+
+Lemma NoDup_app_remove_r {A} (l1 l2 : list A) : NoDup (l1 ++ l2) -> NoDup l1.
+Proof.
+  induction l1 as [|y l1 IH]; cbn [app]; intros Hnd; [constructor|].
+  inversion Hnd as [|? ? Hni Hnd']; subst. constructor; [|exact (IH Hnd')].
+  intros H. apply Hni. apply in_or_app. left. exact H.
+Qed.
+
+Lemma NoDup_app_remove_l {A} (l1 l2 : list A) : NoDup (l1 ++ l2) -> NoDup l2.
+Proof.
+  induction l1 as [|y l1 IH]; cbn [app]; intros Hnd; [exact Hnd|].
+  inversion Hnd as [|? ? Hni Hnd']; subst. exact (IH Hnd').
+Qed.
+
+Lemma contrib_zero' dflt a b c :
+  ~ In a (tips c) -> ~ In b (tips c) -> contrib dflt a b c = 0.
+Proof. intros Ha Hb. apply contrib_zero; apply memb_false_In; assumption. Qed.
+
+Lemma contribs_zero' dflt a b cs :
+  ~ In a (tips_of cs) -> ~ In b (tips_of cs) -> contribs dflt a b cs = 0.
+Proof.
+  intros Ha Hb. apply contribs_zero; try (apply memb_false_In; assumption).
+  apply Forall_forall. intros c _. apply contrib_zero.
+Qed.
+
+Lemma sep_sym c a b : sep c a b = sep c b a.
+Proof. unfold sep. apply xorb_comm. Qed.
+
+Lemma contrib_sym dflt a b c : contrib dflt a b c = contrib dflt b a c.
+Proof.
+  induction c as [n l cs IH] using tree_ind'.
+  rewrite !contrib_node, (sep_sym _ a b). f_equal.
+  unfold contribs. apply zsum_map_ext. exact IH.
+Qed.
+
+Lemma contribs_sym dflt a b cs : contribs dflt a b cs = contribs dflt b a cs.
+Proof.
+  unfold contribs. apply zsum_map_ext. apply Forall_forall. intros c _. apply contrib_sym.
+Qed.
+
+Lemma pathlen_sym dflt t a b : pathlen dflt t a b = pathlen dflt t b a.
+Proof. destruct t as [n l cs]. rewrite !pathlen_node. apply contribs_sym. Qed.
+
+Lemma in_tips_of c cs x : In c cs -> In x (tips c) -> In x (tips_of cs).
+Proof. intros Hc Hx. unfold tips_of. apply in_flat_map. exists c. auto. Qed.
+
+(** the matching predicate of [lookup_dist] *)
+Definition mt (a b : name) (e : (name * name) * Z) : bool :=
+  (str_eqb (fst (fst e)) a && str_eqb (snd (fst e)) b)
+  || (str_eqb (fst (fst e)) b && str_eqb (snd (fst e)) a).
+
+Lemma lookup_dist_eq es a b :
+  lookup_dist es a b = match find (mt a b) es with Some e => Some (snd e) | None => None end.
+Proof. reflexivity. Qed.
+
+Lemma mt_true a b e :
+  mt a b e = true ->
+  (fst (fst e) = a /\ snd (fst e) = b) \/ (fst (fst e) = b /\ snd (fst e) = a).
+Proof. unfold mt. rewrite orb_true_iff, !andb_true_iff, !str_eqb_eq. tauto. Qed.
+
+Lemma mt_intro a b v : mt a b ((a, b), v) = true.
+Proof. unfold mt. cbn [fst snd]. rewrite !str_eqb_refl. reflexivity. Qed.
+
+Lemma mt_sym a b e : mt a b e = mt b a e.
+Proof. unfold mt. apply orb_comm. Qed.
+
+Lemma find_app' {A} (p : A -> bool) (l1 l2 : list A) :
+  find p (l1 ++ l2) = match find p l1 with Some x => Some x | None => find p l2 end.
+Proof.
+  induction l1 as [|x l1 IH]; [reflexivity|]. cbn [app find].
+  destruct (p x); [reflexivity|exact IH].
+Qed.
+
+Lemma lookup_sym es a b : lookup_dist es a b = lookup_dist es b a.
+Proof.
+  rewrite !lookup_dist_eq. induction es as [|e es IH]; [reflexivity|].
+  cbn [find]. rewrite (mt_sym a b e). destruct (mt b a e); [reflexivity|exact IH].
+Qed.
+
+Lemma lookup_skip l1 l2 a b :
+  (forall e, In e l1 -> mt a b e = false) ->
+  lookup_dist (l1 ++ l2) a b = lookup_dist l2 a b.
+Proof.
+  intros H. rewrite !lookup_dist_eq, find_app'.
+  destruct (find (mt a b) l1) as [e|] eqn:E; [|reflexivity].
+  apply find_some in E. destruct E as [Hi Hm]. rewrite (H _ Hi) in Hm. discriminate.
+Qed.
+
+Lemma lookup_app_some l1 l2 a b v :
+  lookup_dist l1 a b = Some v -> lookup_dist (l1 ++ l2) a b = Some v.
+Proof.
+  rewrite !lookup_dist_eq, find_app'. destruct (find (mt a b) l1); [auto|discriminate].
+Qed.
+
+(** names of the depth lists *)
+Lemma tip_depths_node dflt n l cs :
+  cs <> [] -> tip_depths dflt (Node n l cs) = flat_map (shifted dflt) cs.
+Proof. destruct cs; [congruence|reflexivity]. Qed.
+
+Lemma shifted_fst dflt c : map fst (shifted dflt c) = map fst (tip_depths dflt c).
+Proof. unfold shifted. rewrite map_map. apply map_ext. reflexivity. Qed.
+
+Lemma tip_depths_names dflt c : map fst (tip_depths dflt c) = tips c.
+Proof.
+  induction c as [n l cs IH] using tree_ind'.
+  destruct cs as [|c0 cs]; [reflexivity|].
+  rewrite tip_depths_node, tips_node by congruence.
+  induction IH as [|c cs' Hc _ IH']; [reflexivity|].
+  cbn [flat_map]. rewrite tips_of_cons, map_app, shifted_fst, Hc, IH'. reflexivity.
+Qed.
+
+Lemma shifted_names dflt c : map fst (shifted dflt c) = tips c.
+Proof. rewrite shifted_fst. apply tip_depths_names. Qed.
+
+Lemma flat_shifted_names dflt cs : map fst (flat_map (shifted dflt) cs) = tips_of cs.
+Proof.
+  induction cs as [|c cs IH]; [reflexivity|].
+  cbn [flat_map]. rewrite tips_of_cons, map_app, shifted_names, IH. reflexivity.
+Qed.
+
+Lemma shifted_in dflt c p : In p (shifted dflt c) -> In (fst p) (tips c).
+Proof. intros H. rewrite <- (shifted_names dflt c). apply in_map. exact H. Qed.
+
+Lemma flat_shifted_in dflt cs p : In p (flat_map (shifted dflt) cs) -> In (fst p) (tips_of cs).
+Proof. intros H. rewrite <- (flat_shifted_names dflt cs). apply in_map. exact H. Qed.
+
+Lemma shifted_ex dflt c a : In a (tips c) -> exists d, In (a, d) (shifted dflt c).
+Proof.
+  intros H. rewrite <- (shifted_names dflt c) in H. apply in_map_iff in H.
+  destruct H as ([a' d] & <- & H). exists d. exact H.
+Qed.
+
+Lemma flat_shifted_ex dflt cs a :
+  In a (tips_of cs) -> exists d, In (a, d) (flat_map (shifted dflt) cs).
+Proof.
+  intros H. rewrite <- (flat_shifted_names dflt cs) in H. apply in_map_iff in H.
+  destruct H as ([a' d] & <- & H). exists d. exact H.
+Qed.
+
+(** the block of [cross_pairs] pairing the first child with the later ones *)
+Definition xblock (dflt : Z) (c : tree) (cs : list tree) : list ((name * name) * Z) :=
+  flat_map (fun p => flat_map (fun g2 => map (fun q => ((fst p, fst q), snd p + snd q)) g2)
+                              (map (shifted dflt) cs)) (shifted dflt c).
+
+Lemma cross_pairs_cons dflt c cs :
+  cross_pairs (map (shifted dflt) (c :: cs)) = xblock dflt c cs ++ cross_pairs (map (shifted dflt) cs).
+Proof. reflexivity. Qed.
+
+Lemma dist_entries_node dflt n l cs :
+  dist_entries dflt (Node n l cs) =
+  flat_map (dist_entries dflt) cs ++ cross_pairs (map (shifted dflt) cs).
+Proof. reflexivity. Qed.
+
+Lemma in_prod dflt c cs e :
+  In e (xblock dflt c cs) <->
+  exists p q, In p (shifted dflt c) /\ In q (flat_map (shifted dflt) cs) /\
+              e = ((fst p, fst q), snd p + snd q).
+Proof.
+  unfold xblock. rewrite in_flat_map. split.
+  - intros (p & Hp & H). apply in_flat_map in H. destruct H as (g2 & Hg & H).
+    apply in_map_iff in H. destruct H as (q & <- & Hq).
+    apply in_map_iff in Hg. destruct Hg as (c2 & <- & Hc2).
+    exists p, q. repeat split; try assumption. apply in_flat_map. exists c2. auto.
+  - intros (p & q & Hp & Hq & ->). exists p. split; [exact Hp|].
+    apply in_flat_map in Hq. destruct Hq as (c2 & Hc2 & Hq).
+    apply in_flat_map. exists (shifted dflt c2). split; [apply in_map; exact Hc2|].
+    apply in_map_iff. exists q. auto.
+Qed.
+
+Definition names_in (T : list name) (l : list ((name * name) * Z)) : Prop :=
+  forall e, In e l -> In (fst (fst e)) T /\ In (snd (fst e)) T.
+
+Lemma cross_names dflt cs : names_in (tips_of cs) (cross_pairs (map (shifted dflt) cs)).
+Proof.
+  induction cs as [|c cs IH]; intros e He; [contradiction|].
+  rewrite cross_pairs_cons in He. rewrite tips_of_cons. apply in_app_or in He.
+  destruct He as [He|He].
+  - apply in_prod in He. destruct He as (p & q & Hp & Hq & ->). cbn [fst snd].
+    apply shifted_in in Hp. apply flat_shifted_in in Hq.
+    split; apply in_or_app; auto.
+  - destruct (IH e He) as [H1 H2]. split; apply in_or_app; auto.
+Qed.
+
+Lemma dist_names dflt t : names_in (tips t) (dist_entries dflt t).
+Proof.
+  induction t as [n l cs IH] using tree_ind'. intros e He.
+  rewrite dist_entries_node in He.
+  destruct cs as [|c0 cs]; [contradiction|].
+  rewrite tips_node by congruence. set (cs' := c0 :: cs) in *.
+  apply in_app_or in He. destruct He as [He|He].
+  - apply in_flat_map in He. destruct He as (c & Hc & He).
+    rewrite Forall_forall in IH. destruct (IH c Hc e He) as [H1 H2].
+    split; eapply in_tips_of; eassumption.
+  - exact (cross_names dflt cs' e He).
+Qed.
+
+(** depth of a tip = the contribution of the subtree w.r.t. any outside name *)
+Definition depth_ok (dflt : Z) (a b : name) (c : tree) : Prop :=
+  forall d, NoDup (tips c) -> ~ In b (tips c) -> In (a, d) (shifted dflt c) ->
+            contrib dflt a b c = d.
+
+Lemma depth_kids dflt a b cs :
+  Forall (depth_ok dflt a b) cs -> NoDup (tips_of cs) -> ~ In b (tips_of cs) ->
+  forall d, In (a, d) (flat_map (shifted dflt) cs) -> contribs dflt a b cs = d.
+Proof.
+  induction 1 as [|c cs Hc _ IH]; intros Hnd Hb d Hin; [contradiction|].
+  rewrite tips_of_cons in Hnd, Hb. cbn [flat_map] in Hin. rewrite contribs_cons.
+  assert (Hbc : ~ In b (tips c)) by (intros H; apply Hb; apply in_or_app; auto).
+  assert (Hbcs : ~ In b (tips_of cs)) by (intros H; apply Hb; apply in_or_app; auto).
+  apply in_app_or in Hin. destruct Hin as [Hin|Hin].
+  - rewrite (Hc d (NoDup_app_remove_r _ _ Hnd) Hbc Hin).
+    apply shifted_in in Hin. cbn [fst] in Hin.
+    rewrite contribs_zero'; [lia| |exact Hbcs].
+    intros H. exact (NoDup_app_disj _ _ _ Hnd Hin H).
+  - rewrite (IH (NoDup_app_remove_l _ _ Hnd) Hbcs d Hin).
+    apply flat_shifted_in in Hin. cbn [fst] in Hin.
+    rewrite contrib_zero'; [lia| |exact Hbc].
+    intros H. exact (NoDup_app_disj _ _ _ Hnd H Hin).
+Qed.
+
+Lemma depth_all dflt a b c : depth_ok dflt a b c.
+Proof.
+  induction c as [n l cs IH] using tree_ind'. intros d Hnd Hb Hin.
+  pose proof (shifted_in _ _ _ Hin) as Ha. cbn [fst] in Ha.
+  unfold shifted in Hin. apply in_map_iff in Hin. destruct Hin as ([a' d'] & Heq & Hin).
+  cbn [fst snd] in Heq. injection Heq as -> <-.
+  rewrite contrib_node. unfold sep.
+  apply memb_In in Ha. apply memb_false_In in Hb. rewrite Ha, Hb. cbn [xorb].
+  apply memb_false_In in Hb.
+  destruct cs as [|c0 cs].
+  - cbn [tip_depths] in Hin. destruct Hin as [Heq|[]]. injection Heq as _ <-.
+    unfold contribs. cbn [map zsum fold_right]. lia.
+  - rewrite tip_depths_node in Hin by congruence.
+    rewrite tips_node in Hnd, Hb by congruence.
+    rewrite (depth_kids dflt a b _ IH Hnd Hb d' Hin). lia.
+Qed.
+
+Lemma depth_all_F dflt a b cs : Forall (depth_ok dflt a b) cs.
+Proof. apply Forall_forall. intros c _. apply depth_all. Qed.
+
+(** the pair between a tip of the first child and a tip of a later child *)
+Lemma cross_head dflt a b c cs rest :
+  NoDup (tips c ++ tips_of cs) -> In a (tips c) -> In b (tips_of cs) ->
+  lookup_dist (xblock dflt c cs ++ rest) a b = Some (contrib dflt a b c + contribs dflt a b cs).
+Proof.
+  intros Hnd Ha Hb.
+  assert (Hbc : ~ In b (tips c)) by (intros H; exact (NoDup_app_disj _ _ _ Hnd H Hb)).
+  assert (Hacs : ~ In a (tips_of cs)) by (intros H; exact (NoDup_app_disj _ _ _ Hnd Ha H)).
+  rewrite lookup_dist_eq, find_app'.
+  destruct (find (mt a b) (xblock dflt c cs)) as [e|] eqn:E.
+  - apply find_some in E. destruct E as [Hi Hm].
+    apply in_prod in Hi. destruct Hi as ([a' da] & [b' db] & Hp & Hq & ->).
+    apply mt_true in Hm. cbn [fst snd] in *.
+    destruct Hm as [[-> ->]|[-> ->]].
+    + rewrite (depth_all dflt a b c da (NoDup_app_remove_r _ _ Hnd) Hbc Hp).
+      rewrite (contribs_sym dflt a b cs).
+      rewrite (depth_kids dflt b a cs (depth_all_F _ _ _ _) (NoDup_app_remove_l _ _ Hnd) Hacs db Hq).
+      reflexivity.
+    + apply shifted_in in Hp. cbn [fst] in Hp. contradiction.
+  - exfalso. destruct (shifted_ex dflt c a Ha) as [da Hda].
+    destruct (flat_shifted_ex dflt cs b Hb) as [db Hdb].
+    pose proof (find_none _ _ E ((a, b), da + db)) as Hn.
+    rewrite mt_intro in Hn. assert (Hf : true = false); [|discriminate].
+    apply Hn. apply in_prod. exists (a, da), (b, db). auto.
+Qed.
+
+Definition both (a b : name) (c : tree) : bool := memb a (tips c) && memb b (tips c).
+
+Lemma cross_all dflt a b cs :
+  NoDup (tips_of cs) -> In a (tips_of cs) -> In b (tips_of cs) ->
+  existsb (both a b) cs = false ->
+  lookup_dist (cross_pairs (map (shifted dflt) cs)) a b = Some (contribs dflt a b cs).
+Proof.
+  induction cs as [|c cs IH]; intros Hnd Ha Hb Hex; [contradiction|].
+  rewrite cross_pairs_cons, contribs_cons. rewrite tips_of_cons in *.
+  cbn [existsb] in Hex. apply orb_false_iff in Hex. destruct Hex as [Hbo Hex].
+  apply in_app_or in Ha, Hb. destruct Ha as [Ha|Ha], Hb as [Hb|Hb].
+  - unfold both in Hbo. apply memb_In in Ha, Hb. rewrite Ha, Hb in Hbo. discriminate.
+  - apply cross_head; assumption.
+  - rewrite lookup_sym, (contrib_sym dflt a b), (contribs_sym dflt a b).
+    apply cross_head; assumption.
+  - assert (Hac : ~ In a (tips c)) by (intros H; exact (NoDup_app_disj _ _ _ Hnd H Ha)).
+    assert (Hbc : ~ In b (tips c)) by (intros H; exact (NoDup_app_disj _ _ _ Hnd H Hb)).
+    rewrite lookup_skip.
+    + rewrite (IH (NoDup_app_remove_l _ _ Hnd) Ha Hb Hex).
+      rewrite contrib_zero' by assumption. reflexivity.
+    + intros e He. destruct (mt a b e) eqn:Hm; [|reflexivity]. exfalso.
+      apply in_prod in He. destruct He as (p & q & Hp & _ & ->).
+      apply shifted_in in Hp. apply mt_true in Hm. cbn [fst snd] in Hm.
+      destruct Hm as [[Hm _]|[Hm _]]; rewrite Hm in Hp; contradiction.
+Qed.
+
+Definition dist_ok (dflt : Z) (t : tree) : Prop :=
+  NoDup (tips t) -> forall a b, In a (tips t) -> In b (tips t) -> a <> b ->
+  lookup_dist (dist_entries dflt t) a b = Some (pathlen dflt t a b).
+
+Lemma same_child dflt a b cs rest :
+  Forall (dist_ok dflt) cs -> NoDup (tips_of cs) -> a <> b ->
+  existsb (both a b) cs = true ->
+  lookup_dist (flat_map (dist_entries dflt) cs ++ rest) a b = Some (contribs dflt a b cs).
+Proof.
+  induction 1 as [|c cs Hc _ IH]; intros Hnd Hab Hex; [discriminate|].
+  cbn [flat_map]. rewrite <- app_assoc, contribs_cons. rewrite tips_of_cons in Hnd.
+  cbn [existsb] in Hex. destruct (both a b c) eqn:Hbo.
+  - unfold both in Hbo. apply andb_true_iff in Hbo. destruct Hbo as [Ha Hb].
+    pose proof Ha as Ha'. pose proof Hb as Hb'. apply memb_In in Ha', Hb'.
+    rewrite (lookup_app_some _ _ _ _ _ (Hc (NoDup_app_remove_r _ _ Hnd) a b Ha' Hb' Hab)).
+    rewrite contribs_zero'.
+    + unfold contrib, edge_w, sep. rewrite Ha, Hb. cbn [xorb]. f_equal. lia.
+    + intros H. exact (NoDup_app_disj _ _ _ Hnd Ha' H).
+    + intros H. exact (NoDup_app_disj _ _ _ Hnd Hb' H).
+  - cbn [orb] in Hex. pose proof Hex as Hex'.
+    apply existsb_exists in Hex'. destruct Hex' as (c' & Hc' & Hbo').
+    unfold both in Hbo'. apply andb_true_iff in Hbo'. destruct Hbo' as [Ha Hb].
+    apply memb_In in Ha, Hb.
+    pose proof (in_tips_of _ _ _ Hc' Ha) as Ha'. pose proof (in_tips_of _ _ _ Hc' Hb) as Hb'.
+    rewrite lookup_skip.
+    + rewrite (IH (NoDup_app_remove_l _ _ Hnd) Hab Hex).
+      rewrite contrib_zero'; [reflexivity| |].
+      * intros H. exact (NoDup_app_disj _ _ _ Hnd H Ha').
+      * intros H. exact (NoDup_app_disj _ _ _ Hnd H Hb').
+    + intros e He. destruct (mt a b e) eqn:Hm; [|reflexivity]. exfalso.
+      destruct (dist_names dflt c e He) as [H1 H2]. apply mt_true in Hm.
+      destruct Hm as [[Hm _]|[_ Hm]].
+      * rewrite Hm in H1. exact (NoDup_app_disj _ _ _ Hnd H1 Ha').
+      * rewrite Hm in H2. exact (NoDup_app_disj _ _ _ Hnd H2 Ha').
+Qed.
+
+Lemma dist_ok_all dflt t : dist_ok dflt t.
+Proof.
+  induction t as [n l cs IH] using tree_ind'. intros Hnd a b Ha Hb Hab.
+  destruct cs as [|c0 cs].
+  { cbn [tips] in Ha, Hb. destruct Ha as [<-|[]], Hb as [<-|[]]. congruence. }
+  rewrite tips_node in Hnd, Ha, Hb by congruence.
+  rewrite dist_entries_node, pathlen_node. set (cs' := c0 :: cs) in *.
+  destruct (existsb (both a b) cs') eqn:Hex.
+  - apply same_child; assumption.
+  - rewrite lookup_skip.
+    + apply cross_all; assumption.
+    + intros e He. destruct (mt a b e) eqn:Hm; [|reflexivity]. exfalso.
+      apply in_flat_map in He. destruct He as (c & Hc & He).
+      destruct (dist_names dflt c e He) as [H1 H2]. apply mt_true in Hm.
+      assert (Hbo : both a b c = true).
+      { unfold both. apply andb_true_iff.
+        destruct Hm as [[<- <-]|[<- <-]]; split; apply memb_In; assumption. }
+      assert (Hex' : existsb (both a b) cs' = true) by (apply existsb_exists; exists c; auto).
+      congruence.
+Qed.
+
+Theorem get_distance_is_pathlen : forall dflt t a b,
+  NoDup (tips t) -> In a (tips t) -> In b (tips t) -> a <> b ->
+  get_distance dflt t a b = Some (pathlen dflt t a b).
+Proof.
+  intros dflt t a b Hnd Ha Hb Hab. unfold get_distance. apply dist_ok_all; assumption.
+Qed.
+
+(* ------------------------------------------------------------------ child-level statements of the get_sub_tree invariant *)
+
+Lemma good_intro c lc : tlen c = Some lc -> 0 < lc -> pos_lens c = true -> good c = true.
+Proof.
+  intros Hl Hpos Hp. unfold good. rewrite Hl, Hp.
+  destruct (Z.ltb_spec 0 lc); [reflexivity|lia].
+Qed.
+
+Theorem gst_child_none_iff : forall S c lc,
+  tlen c = Some lc -> 0 < lc -> pos_lens c = true ->
+  (gst S true c = None <-> filter (fun n => memb n S) (tips c) = []).
+Proof.
+  intros S c lc Hl Hpos Hp.
+  pose proof (gst_inv_all 0 S c (good_intro c lc Hl Hpos Hp)) as H.
+  destruct (gst S true c) as [x|]; split; intros E; try assumption; try reflexivity; try discriminate.
+  destruct H as [Ht _]. rewrite E in Ht. exfalso. exact (tips_nonempty x Ht).
+Qed.
+
+Theorem gst_child_some : forall dflt S c lc x,
+  tlen c = Some lc -> 0 < lc -> pos_lens c = true ->
+  gst S true c = Some x ->
+  tips x = filter (fun n => memb n S) (tips c) /\
+  (exists lx, tlen x = Some lx /\ 0 < lx) /\
+  pos_lens x = true /\
+  forall a b, memb a S = true -> memb b S = true ->
+              contrib dflt a b x = contrib dflt a b c.
+Proof.
+  intros dflt S c lc x Hl Hpos Hp Hg.
+  pose proof (gst_inv_all dflt S c (good_intro c lc Hl Hpos Hp)) as H.
+  rewrite Hg in H. destruct H as (Ht & Hgx & Hc).
+  unfold good in Hgx. apply andb_true_iff in Hgx. destruct Hgx as [Hlx Hpx].
+  destruct (tlen x) as [lx|]; [|discriminate]. apply Z.ltb_lt in Hlx.
+  repeat split; try assumption. exists lx. auto.
+Qed.
+
+(* ------------------------------------------------------------------ prune keeps every length present *)
+
+Lemma pkids_hl cs :
+  Forall (fun c => has_lens c = true -> forall e, hl (fst (pc c (Some e))) = true) cs ->
+  forallb hl cs = true -> forallb hl (pkids cs) = true.
+Proof.
+  intros HF Hh. rewrite (forallb_perm hl _ _ (pkids_perm cs)).
+  induction HF as [|c cs Hc _ IH]; [reflexivity|].
+  cbn [forallb] in Hh. apply andb_true_iff in Hh. destruct Hh as [Hhc Hhcs].
+  unfold hl in Hhc. apply andb_true_iff in Hhc. destruct Hhc as [Hl Hhc].
+  destruct (tlen c) as [lc|] eqn:El; [|discriminate].
+  cbn [map forallb]. unfold prep at 1. rewrite El, (Hc Hhc lc), (IH Hhcs). reflexivity.
+Qed.
+
+Lemma pc_hl t : has_lens t = true -> forall e, hl (fst (pc t (Some e))) = true.
+Proof.
+  induction t as [n l cs IH] using tree_ind'. intros Hh e.
+  rewrite has_lens_node in Hh.
+  destruct (Nat.eq_dec (length cs) 1) as [H1|H1].
+  - destruct cs as [|c [|d cs]]; try discriminate.
+    rewrite pc_single. cbn [fst]. inversion IH as [|? ? Hc _]; subst.
+    cbn [forallb] in Hh. rewrite andb_true_r in Hh. unfold hl in Hh.
+    apply andb_true_iff in Hh. destruct Hh as [Hl Hhc].
+    destruct (tlen c) as [lc|] eqn:El; [|discriminate].
+    cbn [prune_len]. apply Hc. exact Hhc.
+  - rewrite (pc_multi n l cs (Some e) H1). cbn [fst]. unfold hl. cbn [tlen].
+    rewrite has_lens_node. apply (pkids_hl cs IH Hh).
+Qed.
+
+Theorem prune_has_lens : forall t, has_lens t = true -> has_lens (prune t) = true.
+Proof.
+  intros t Hh. destruct t as [n l cs]. rewrite prune_unfold. cbn [tname tlen kids].
+  rewrite has_lens_node in *. apply pkids_hl; [|exact Hh].
+  apply Forall_forall. intros c _. apply pc_hl.
 Qed.
